@@ -255,6 +255,9 @@ class BaseEvent(BaseModel, Generic[T_EventResultType]):
 
     # Completion signal
     _event_completed_signal: asyncio.Event | None = PrivateAttr(default=None)
+    # The event whose handler dispatched this event (and waits for it as one of its children). Completion is reported to it
+    # directly: by then it may have been evicted from every bus history, or an explicit event_parent_id may name another event
+    _event_dispatched_by: 'BaseEvent[Any] | None' = PrivateAttr(default=None)
     # Number of buses that have accepted this event but not finished processing it yet
     _event_pending_bus_count: int = PrivateAttr(default=0)
 
